@@ -140,6 +140,83 @@ theorem safe_getOrInsert (inp : Input) (o : Op) (ho : o = .getOrInsert ∨ o = .
     · exact safe_singleton ((ok_fresh inp 1000 (.arg 0)).2
         ⟨by omega, (destOk_arg inp 0).2 ⟨not_lvcr_of_in h0 rvio_io, lt_of_catIn h0⟩⟩)
 
+/-! ## optional -/
+
+theorem safe_optMap (inp : Input) (h : wf .optMap inp = true) : Safe inp (prog .optMap inp) := by
+  have hs := shape_of_wf h
+  simp only [shapeOk, Bool.and_eq_true] at hs
+  exact safe_callAll hs.1.1.2 (Nat.le_refl _) (destOk_res inp)
+
+theorem safe_optBind (inp : Input) (h : wf .optBind inp = true) : Safe inp (prog .optBind inp) := by
+  have hs := shape_of_wf h
+  simp only [shapeOk, Bool.and_eq_true] at hs
+  have h0 := hs.1.1.1.2
+  simp only [prog]
+  cases hr : inp.isRv 0
+  · simp only [Bool.false_eq_true, if_false]
+    exact safe_deriveEach (by simp) (destOk_res inp)
+  · simp only [if_true]
+    exact safe_append (safe_readAll (Nat.le_refl _))
+      (safe_ite (fun _ => safe_xferAll_move (not_lvcr_of_rv hr) (Nat.le_refl _) (destOk_res inp)) (fun _ => safe_nil inp))
+      (cross_of_noKills (noKills_readAll _ _))
+
+theorem safe_optFrom (inp : Input) (h : wf .optFrom inp = true) : Safe inp (prog .optFrom inp) := by
+  have hs := shape_of_wf h
+  simp only [shapeOk, Bool.and_eq_true] at hs
+  exact safe_ite (fun _ => safe_fresh_res inp 1000 (by omega))
+    (fun _ => safe_xferAll_fwd hs.1.1.2 (Nat.le_refl _) (destOk_res inp))
+
+theorem safe_optAlt (inp : Input) (h : wf .optAlt inp = true) : Safe inp (prog .optAlt inp) := by
+  have hs := shape_of_wf h
+  simp only [shapeOk, Bool.and_eq_true] at hs
+  exact safe_ite (fun _ => safe_ite (fun _ => safe_fresh_res inp 1000 (by omega)) (fun _ => safe_nil inp))
+    (fun _ => safe_xferAll_fwd hs.1.1.1.2 (Nat.le_refl _) (destOk_res inp))
+
+theorem safe_optFilter (inp : Input) (h : wf .optFilter inp = true) : Safe inp (prog .optFilter inp) := by
+  have hs := shape_of_wf h
+  simp only [shapeOk, Bool.and_eq_true] at hs
+  exact safe_append (safe_readAll (Nat.le_refl _))
+    (safe_ite (fun _ => safe_xferAll_fwd hs.1.1.1.2 (Nat.le_refl _) (destOk_res inp)) (fun _ => safe_nil inp))
+    (cross_of_noKills (noKills_readAll _ _))
+
+theorem safe_optToContainer (inp : Input) (h : wf .optToContainer inp = true) : Safe inp (prog .optToContainer inp) := by
+  have hs := shape_of_wf h
+  simp only [shapeOk, Bool.and_eq_true] at hs
+  exact safe_xferAll_fwd hs.1.1.2 (Nat.le_refl _) (destOk_res inp)
+
+theorem safe_optJoin (inp : Input) (h : wf .optJoin inp = true) : Safe inp (prog .optJoin inp) := by
+  have hs := shape_of_wf h
+  simp only [shapeOk, Bool.and_eq_true] at hs
+  exact safe_xferAll_fwd hs.1.1.1.1.2 (Nat.le_refl _) (destOk_res inp)
+
+theorem safe_read_call {inp : Input} (h0 : catIn inp 0 anyCat = true) :
+    Safe inp (readAll 1 (inp.size 1) ++ callAll (inp.isRv 0) 0 (inp.size 0) .res) :=
+  safe_append (safe_readAll (Nat.le_refl _)) (safe_callAll h0 (Nat.le_refl _) (destOk_res inp))
+    (cross_of_noKills (noKills_readAll _ _))
+
+theorem safe_optCombine (inp : Input) (h : wf .optCombine inp = true) : Safe inp (prog .optCombine inp) := by
+  have hs := shape_of_wf h
+  simp only [shapeOk, Bool.and_eq_true] at hs
+  obtain ⟨⟨⟨⟨⟨_, h0⟩, h1⟩, _⟩, _⟩, _⟩ := hs
+  exact safe_ite (fun _ => safe_xferAll_fwd h1 (Nat.le_refl _) (destOk_res inp))
+    (fun _ => safe_ite (fun _ => safe_xferAll_fwd h0 (Nat.le_refl _) (destOk_res inp)) (fun _ => safe_read_call h0))
+
+theorem safe_optApply2 (inp : Input) (h : wf .optApply2 inp = true) : Safe inp (prog .optApply2 inp) := by
+  have hs := shape_of_wf h
+  simp only [shapeOk, Bool.and_eq_true] at hs
+  obtain ⟨⟨⟨⟨⟨_, h0⟩, h1⟩, _⟩, _⟩, _⟩ := hs
+  exact safe_ite (fun _ => safe_nil inp) (fun _ => safe_read_call h0)
+
+theorem safe_optSequence (inp : Input) (h : wf .optSequence inp = true) : Safe inp (prog .optSequence inp) := by
+  have hs := shape_of_wf h
+  simp only [shapeOk, Bool.and_eq_true] at hs
+  exact safe_ite (fun _ => safe_xferAll_fwd hs.1.1.2 (Nat.le_refl _) (destOk_res inp)) (fun _ => safe_nil inp)
+
+theorem safe_optCat (inp : Input) (h : wf .optCat inp = true) : Safe inp (prog .optCat inp) := by
+  have hs := shape_of_wf h
+  simp only [shapeOk, Bool.and_eq_true] at hs
+  exact safe_xferAll_fwd hs.1.1.2 (Nat.le_refl _) (destOk_res inp)
+
 /-- **every registered operation's program is safe**, for arguments of every size -/
 theorem prog_safe (o : Op) (inp : Input) (h : wf o inp = true) : Safe inp (prog o inp) := by
   cases o with
@@ -157,5 +234,16 @@ theorem prog_safe (o : Op) (inp : Input) (h : wf o inp = true) : Safe inp (prog 
   | moveClear => exact safe_moveClear inp h
   | getOrInsert => exact safe_getOrInsert inp _ (Or.inl rfl) h
   | getOrInsertWithResult => exact safe_getOrInsert inp _ (Or.inr rfl) h
+  | optMap => exact safe_optMap inp h
+  | optBind => exact safe_optBind inp h
+  | optFrom => exact safe_optFrom inp h
+  | optAlt => exact safe_optAlt inp h
+  | optFilter => exact safe_optFilter inp h
+  | optToContainer => exact safe_optToContainer inp h
+  | optJoin => exact safe_optJoin inp h
+  | optCombine => exact safe_optCombine inp h
+  | optApply2 => exact safe_optApply2 inp h
+  | optSequence => exact safe_optSequence inp h
+  | optCat => exact safe_optCat inp h
 
 end Fcppt.C05
